@@ -18,6 +18,7 @@ def run(ctx):
     ctx.rule("WSM-3", "from(): the library constructor (which panics on an empty list) is reached only when the filtered list is non-empty; the empty case returns "
                       "Err(JsValue::from(<the library's message>)) - no trap")
     ctx.rule("WSM-4", "build() returns the library's build() of the wrapped builder unchanged")
+    ctx.rule("WSM-5", "from() hands every string of the JS array to the library: one as_string conversion per element, no further filter or rewrite")
     ctx.assume("#[wasm_bindgen] only adds glue around the user-written method bodies; the bodies behave on wasm32 as type-checked for the host "
                "(the view rewrites cfg(target_family=\"wasm\") to cfg(all()); no wasm32 target is installed)")
     prog = common.view(ctx, "wasm")
@@ -50,10 +51,11 @@ def run(ctx):
         okl = [l for l in leaves if isinstance(l.value, ccp.Agg) and l.value.label and l.value.label.endswith("::Ok")]
         erl = [l for l in leaves if isinstance(l.value, ccp.Agg) and l.value.label and l.value.label.endswith("::Err")]
         bad = None
-        if len(leaves) != 2 or len(okl) != 1 or len(erl) != 1:
-            bad = "expected one Ok and one Err path, found %s" % [ccp.show(l.value)[:60] for l in leaves]
-        else:
-            ok_, er_ = okl[0], erl[0]
+        if len(leaves) != len(okl) + len(erl) or not okl or not erl:
+            bad = "expected only Ok and Err paths, at least one of each, found %s" % sorted({ccp.show(l.value)[:60] for l in leaves})
+        for ok_, er_ in ([(o_, e_) for o_ in okl for e_ in erl] if not bad else []):
+            if bad:
+                break
             msg, _ = binding.err_message(er_.value)
             core_calls = [e for e in ok_.events if e["k"] == "call" and e["callee"] == common.BUILDER + "::from"]
             err_core = [e for e in er_.events if e["k"] in ("call", "panic") and e["callee"] == common.BUILDER + "::from"]
@@ -75,6 +77,64 @@ def run(ctx):
             ctx.violation("WSM-3", (fb.path, "empty input"), bad, fb.loc())
         else:
             ctx.ok("WSM-3", fb.path, {"empty": "Err(JsValue::from(msg))", "non_empty": "library from()"}, fb.loc())
+    # WSM-5: what from() hands to the library is every string of the JS array, nothing filtered or rewritten
+    if fb is not None:
+        from sa import local as _l
+        from sa.facts import callee_name as _cn
+        d = _l.Defs(fb)
+        sites = [(bi, t) for bi, t in fb.calls() if _cn(t) == common.BUILDER + "::from"]
+        for bi, t in sites:
+            o = d.operand(t["args"][0])
+            adapters = [x for x in _l.walk(o) if x[0] == "call" and re.search(r"Iterator::\w+$|Itertools::\w+$|::iter$|::into_iter$|::to_vec$", x[1])]
+            bad = None
+            conv = 0
+            for x in adapters:
+                seg = x[1].rsplit("::", 1)[-1]
+                if seg in ("iter", "into_iter", "collect", "collect_vec", "to_vec", "cloned", "copied"):
+                    continue
+                if seg in ("filter_map", "map", "flat_map"):
+                    c = _l.peel(x[2][1]) if len(x[2]) > 1 else None
+                    cb = lib.body(c[2]) if c and c[0] == "agg" and c[1] == "closure" else None
+                    r = _l.peel(_l.Defs(cb).local(0)) if cb is not None else None
+                    if r is not None and r[0] == "call" and r[1].endswith("JsValue::as_string") and _l.peel(r[2][0]) in (("param", 2), ("deref", ("param", 2))) or \
+                            (r is not None and r[0] == "call" and r[1].endswith("JsValue::as_string") and any(y == ("param", 2) for y in _l.walk(r[2][0])) and len(list(_l.walk(r))) <= 6):
+                        conv += 1
+                        continue
+                    bad = "the conversion closure returns %s, not just the element's as_string()" % (_l.show(r)[:100] if r is not None else "?")
+                    break
+                bad = "the array passes through %s before it reaches the library" % x[1]
+                break
+            if bad is None and conv == 0 and not adapters:
+                # loop form: the list is filled by push(as_string(item).unwrap-by-pattern) for every item of a loop over the array
+                pushes = []
+                for l in leaves:
+                    for e in l.events:
+                        if e["k"] == "call" and e["callee"].endswith("Vec::<T, A>::push") and len(e["args"]) == 2:
+                            pushes.append((l, e))
+                okp = bool(pushes)
+                why = "no push into the list handed to the library"
+                for l, e in pushes:
+                    v = e["args"][1]
+                    txt = ccp.show(v)
+                    ids = re.findall(r"#(\w+@bb\d+#\d+)", txt)
+                    is_conv = isinstance(v, ccp.Fld) and txt.startswith("wasm_bindgen::JsValue::as_string(") and ids and "Iterator>::next" in txt
+                    facts = [(a, val) for a, val in l.label if ids and ids[0] in a]
+                    extra = [(a, val) for a, val in facts if not (a.startswith("discr(") and val == "1")]
+                    if not is_conv or extra:
+                        okp = False
+                        why = "an element reaches the list as %s under %s" % (txt[:80], extra[:2])
+                if okp:
+                    conv = 1
+                else:
+                    bad = "the array is converted in a loop, but " + why
+            if bad is None and conv != 1:
+                bad = "expected exactly one JsValue::as_string conversion between the JS array and the library constructor, found %d" % conv
+            if bad:
+                ctx.violation("WSM-5", (fb.path, "array conversion"), bad + ": the library would see a different list of test cases than the caller passed "
+                              "(an array holding only empty strings would even count as empty)", fb.loc(t.get("line")))
+            else:
+                ctx.ok("WSM-5", fb.path + ":array -> as_string of every element -> library", None, fb.loc(t.get("line")))
+        ctx.floor("WSM-5", "calls of the library constructor in the wasm constructor", len(sites), 1)
     # WSM-4
     bb = methods.get("build")
     if bb is None:
